@@ -189,6 +189,8 @@ def loop_id(f, lp):
 
 def run(ctx):
     prog, rep = ctx.prog, ctx.report
+    from rules import C08
+    C08.r_output_compare(prog, rep, with_inputs=False)
 
     # ------------------------------------------------------------------ coverage
     r = rep.rule("R-SIG-COVERAGE", "every data member that a configure* method of a command class writes is folded by that class's getSignature "
